@@ -158,6 +158,7 @@ func c07Round(rep *Report, m *MultiFixture, round int, ts []c07Tunnel) {
 	}
 	if m.Kind == "openid" {
 		c07TwoAddresses(rep, m, round)
+		c07OverlappingCookieChecks(rep, m, round)
 	}
 	if round%5 == 1 {
 		c07Hold(rep, m, round)
@@ -707,4 +708,97 @@ func c07InWithoutID(rep *Report, m *MultiFixture, round int) {
 			return
 		}
 	}
+}
+
+// c07OverlappingCookieChecks: the two tunnels of one login session (same IdP access token, tokens
+// issued to 127.0.0.1 and 127.0.0.2) and a tunnel of another user present their cookies at the same
+// moment while the IdP answers userinfo slowly, so that the three cookie checks are in flight together.
+// Each tunnel must end up with its own token's claims: every step succeeds, as it does alone.
+func c07OverlappingCookieChecks(rep *Report, m *MultiFixture, round int) {
+	u := m.Users[round%len(m.Users)]
+	v := m.Users[(round+1)%len(m.Users)]
+	if u.Cookie2 == "" || m.IdP == nil || u == v {
+		return
+	}
+	tr := Transports()[(round/2)%len(Transports())]
+	type tun struct {
+		who    string
+		t      *TClient
+		syms   []Sym
+		b      *Backend
+		status []uint32
+	}
+	mk := func(who string, usr *MUser, local, cookie string) *tun {
+		env := m.Env(usr, tr)
+		env.LocalIP = local
+		env.W = 10 * time.Second
+		t, _, err := env.OpenTunnel(NewConnID("oc"))
+		if err != nil || t == nil {
+			return nil
+		}
+		return &tun{who: who, t: t, b: usr.B, syms: []Sym{m.SymHS(), {Kind: "TC", Wire: TunnelCreate(0, &cookie)}, SymTAx(), SymCCx(usr.B)}}
+	}
+	ts := []*tun{mk("session of "+u.Name+" from 127.0.0.1", u, "127.0.0.1", u.Cookie), mk("session of "+u.Name+" from 127.0.0.2", u, "127.0.0.2", u.Cookie2), mk("user "+v.Name, v, "127.0.0.1", v.Cookie)}
+	ok := true
+	for _, x := range ts {
+		if x == nil {
+			ok = false
+		}
+	}
+	defer func() {
+		for _, x := range ts {
+			if x != nil {
+				x.t.Close()
+			}
+		}
+	}()
+	if !ok {
+		rep.Inconclusive("overlapping cookie checks: open")
+		return
+	}
+	wait := func(x *tun, i int) uint32 {
+		if n, _ := x.t.WaitPackets(i+1, 15*time.Second); n < i+1 {
+			return 0xFFFFFFFF
+		}
+		st, _ := LenientStatus(x.t.Snapshot().Packets[i].Raw)
+		return st
+	}
+	for _, x := range ts { // handshakes one after the other
+		x.t.Send(x.syms[0].Wire)
+		x.status = append(x.status, wait(x, 0))
+	}
+	before := m.IdP.RequestsTo("/userinfo")
+	m.IdP.SetUserinfoDelay(120 * time.Millisecond)
+	for _, x := range ts { // all cookies on the wire before any answer can come back
+		x.t.Send(x.syms[1].Wire)
+	}
+	for _, x := range ts {
+		x.status = append(x.status, wait(x, 1))
+	}
+	m.IdP.SetUserinfoDelay(0)
+	asked := m.IdP.RequestsTo("/userinfo") - before
+	for i := 2; i < 4; i++ {
+		for _, x := range ts {
+			x.t.Send(x.syms[i].Wire)
+			x.status = append(x.status, wait(x, i))
+		}
+	}
+	var all [][]uint32
+	for _, x := range ts {
+		all = append(all, x.status)
+	}
+	rep.Eval(HashStr("overlapping-cookie-checks", tr, all))
+	rep.Count("overlapping_cookie_check_probes", 1)
+	rep.Count("userinfo_requests_during_overlap", asked)
+	for _, x := range ts {
+		for i, st := range x.status {
+			if st != 0 {
+				rep.Violate("C07/unexpected-response/overlapping-cookie-checks/"+tr, fmt.Sprintf("three tunnels (two of one login session from two client addresses, one of another user) presented their cookies while the IdP answered slowly; step %d of the tunnel of %s answered %#x, alone every step succeeds (statuses %x)", i, x.who, st, all), nil)
+				goto reset
+			}
+		}
+	}
+reset:
+	u.B.Reset()
+	v.B.Reset()
 }
